@@ -71,6 +71,7 @@ import torch
 import common
 import py2lean_arch
 import py2lean_kernel
+import py2lean_multiinput
 from common import REPO, ROOT, Check, InfraError, ddmin
 
 warnings.filterwarnings("ignore")
@@ -1859,6 +1860,169 @@ def kernel_limit_suite(chk: Check, policy: dict, known: set, n_chains: int, leng
     return ncase, ndiff
 
 
+# ----------------------------------------------------------------------------- multi-input width arithmetic
+def multi_width_space(case: dict):
+    sp = _spaces()
+    f = np.float32
+    subs = []
+    for kind, arg in case["subs"]:
+        if kind == "box":
+            subs.append(sp.Box(-1, 1, tuple(arg), dtype=f))
+        elif kind == "disc":
+            subs.append(sp.Discrete(int(arg)))
+        else:
+            subs.append(sp.MultiDiscrete([int(a) for a in arg]))
+    if case["tuple"]:
+        return sp.Tuple(tuple(subs))
+    return sp.Dict({f"k{i}": s for i, s in enumerate(subs)})
+
+
+def multi_width_exact(case: dict, latent: int) -> tuple[int, list[str]]:
+    """the exact statement (Model/Arch.lean multiFinalIn, written out): one latent vector per image / sequence
+    extractor (+ the vector MLP), plus the flattened vector observations unless they go through the vector MLP"""
+    rec, mlp = case["recurrent"], case["vector_space_mlp"]
+    n_lat, vec, mods = 0, 0, []
+    for i, (kind, arg) in enumerate(case["subs"]):
+        nd = len(arg) if kind == "box" else None
+        flat = int(np.prod(arg)) if kind == "box" else int(arg) if kind == "disc" else int(sum(arg))
+        is_vec = kind != "box" or nd in (0, 1) or (nd == 2 and not rec) or nd > 3
+        if is_vec:
+            vec += flat
+        if kind == "box" and nd in (0, 1):
+            continue
+        mods.append("EvolvableCNN" if kind == "box" and nd == 3 else
+                    "EvolvableLSTM" if kind == "box" and nd == 2 and not is_vec else "Flatten")
+        if not is_vec:
+            n_lat += 1
+    if mlp:
+        n_lat += 1
+        mods.append("EvolvableMLP")
+    return latent * n_lat + (0 if mlp else vec), mods
+
+
+def multi_width_case(case: dict) -> list[str]:
+    """build the real EvolvableMultiInput, apply the latent mutations (through the @mutation wrapper, which
+    re-creates the network); after construction and after every step: bounds, `final_dense.in_features` = the exact
+    width = the width of a fresh construction from `init_dict` = the width `forward` really concatenates"""
+    from agilerl.modules import EvolvableMultiInput
+    space = multi_width_space(case)
+    torch.manual_seed(0)
+    np.random.seed(case.get("seed", 0))
+    m = EvolvableMultiInput(space, num_outputs=case["num_outputs"], latent_dim=case["latent"],
+                            vector_space_mlp=case["vector_space_mlp"], recurrent=case["recurrent"],
+                            min_latent_dim=case["lo"], max_latent_dim=case["hi"],
+                            cnn_config=small_cnn_cfg(layer_norm=False), mlp_config=small_mlp_cfg([3]),
+                            lstm_config=dict(hidden_size=3, num_layers=1, min_hidden_size=2, max_hidden_size=5,
+                                             min_layers=1, max_layers=2))
+    bad: list[str] = []
+
+    def check(tag: str):
+        lat = int(m.latent_dim)
+        if not case["lo"] <= lat <= case["hi"]:
+            bad.append(f"{tag}: latent_dim {lat} outside [{case['lo']}, {case['hi']}]")
+        want, mods = multi_width_exact(case, lat)
+        got = int(m.final_dense.in_features)
+        if got != want:
+            bad.append(f"{tag}: final_dense.in_features = {got}, the features are {want} wide (latent_dim {lat})")
+        built = [type(x).__name__ for x in m.feature_net.values()]
+        if built != mods:
+            bad.append(f"{tag}: feature_net holds {built}, expected {mods}")
+        for key, sub in m.feature_net.items():
+            if hasattr(sub, "num_outputs") and int(sub.num_outputs) != lat:
+                bad.append(f"{tag}: extractor {key} has num_outputs {sub.num_outputs}, latent_dim is {lat}")
+        try:
+            fresh = EvolvableMultiInput(**copy.deepcopy(m.init_dict))
+            if int(fresh.final_dense.in_features) != got:
+                bad.append(f"{tag}: rebuilt from init_dict, final_dense takes {fresh.final_dense.in_features} "
+                           f"inputs, the mutated network {got}")
+        except Exception as e:
+            if impl_fault(e) is None:
+                raise
+            bad.append(f"{tag}: rebuilding from init_dict raised {fault_text(e)}")
+        seen = []
+        h = m.final_dense.register_forward_pre_hook(lambda mod, inp: seen.append(int(inp[0].shape[-1])))
+        try:
+            with torch.no_grad():
+                out = m(sample_obs(space, 2))
+            if seen != [got]:
+                bad.append(f"{tag}: forward concatenates {seen} features, final_dense takes {got}")
+            if tuple(out.shape) != (2, case["num_outputs"]):
+                bad.append(f"{tag}: output shape {tuple(out.shape)}")
+        except Exception as e:
+            if impl_fault(e) is None:
+                raise
+            bad.append(f"{tag}: forward raised {fault_text(e)}")
+        finally:
+            h.remove()
+
+    check("after construction")
+    for i, (meth, arg) in enumerate(case["steps"]):
+        before = int(m.latent_dim)
+        ret = getattr(m, meth)(**({} if arg is None else {"numb_new_nodes": arg}))
+        n = int(ret["numb_new_nodes"])
+        after = int(m.latent_dim)
+        tag = f"step {i} {meth}({'' if arg is None else arg})"
+        if arg is None and n not in (8, 16, 32):
+            bad.append(f"{tag}: drew {n}")
+        delta = n if meth == "add_latent_node" else -n
+        if after not in (before, before + delta):
+            bad.append(f"{tag}: latent_dim {before} -> {after}, reported amount {n}")
+        check(tag)
+        if bad:
+            break
+    return bad
+
+
+def multi_width_suite(chk: Check, n_cases: int) -> tuple[int, int]:
+    rng = chk.rng
+    ncase = nbad = 0
+    for t in range(n_cases):
+        subs = []
+        for _ in range(rng.randint(1, 4)):
+            r = rng.random()
+            subs.append(("box", [rng.randint(1, 5)]) if r < 0.25 else ("disc", rng.randint(2, 5)) if r < 0.4 else
+                        ("mdisc", [rng.randint(2, 3), rng.randint(2, 4)]) if r < 0.5 else
+                        ("box", [rng.randint(2, 4), rng.randint(1, 3)]) if r < 0.7 else
+                        ("box", [rng.randint(1, 2), 8, 8]) if r < 0.9 else ("box", [2, 1, 2, 2]))
+        recurrent = rng.random() < 0.5
+        if not any(k != "box" or len(a) in (1, 4) or (len(a) == 2 and not recurrent) for k, a in subs):
+            subs.append(("box", [rng.randint(1, 5)]))      # forward needs one vector sub-space (outside: torch.cat([]))
+        mlp = rng.random() < 0.5
+        # forward applies nn.Flatten to a 2-D / 4-D vector Box only when some module gives a latent vector
+        # (`if self.extracted_features_dim > 0`); a space of such boxes alone fails at construction already (reported;
+        # not a mutation matter): keep one latent module
+        if not mlp and any(k == "box" and len(a) in (2, 4) for k, a in subs) and \
+                not any(k == "box" and (len(a) == 3 or (len(a) == 2 and recurrent)) for k, a in subs):
+            subs.append(("box", [1, 8, 8]))
+        small = rng.random() < 0.5
+        lo, hi = (2, 12) if small else (8, 128)
+        steps = []
+        for _ in range(rng.randint(1, 4)):
+            meth = rng.choice(["add_latent_node", "remove_latent_node"])
+            steps.append((meth, None if rng.random() < 0.4 else rng.choice([0, 1, 2, 3, 8, hi - lo, hi])))
+        case = {"subs": subs, "tuple": rng.random() < 0.3, "recurrent": recurrent,
+                "vector_space_mlp": mlp, "latent": rng.choice([lo, hi, rng.randint(lo, hi)]),
+                "lo": lo, "hi": hi, "num_outputs": rng.randint(1, 4), "steps": steps, "seed": rng.randrange(1000)}
+        try:
+            bad = multi_width_case(case)
+        except Exception as e:
+            if impl_fault(e) is None:
+                raise
+            bad = [f"the implementation raised {fault_text(e)}"]
+        ncase += 1
+        chk.case(["multi-width", subs, case["tuple"], recurrent, case["vector_space_mlp"], case["latent"], steps],
+                 nontrivial=len(subs) > 1, sample=case if t < 2 else None,
+                 tags=["multi-width", "vector-mlp" if case["vector_space_mlp"] else "raw-vectors",
+                       "recurrent" if recurrent else "not-recurrent"])
+        if bad:
+            if nbad < 3:
+                chk.violation(f"[multi-width] {bad[0]} ({case})",
+                              {"suite": "multi-width", "call": "multi_width", "case": case, "spec": {}, "steps": [],
+                               "oracle_problems": bad})
+            nbad += 1
+    return ncase, nbad
+
+
 def pre_gate(chk: Check) -> None:
     """Regenerate lean/Gen/ArchGen.lean from the source text of the tree under test (before the Lean gate)
     and re-check `generated = model` (Proofs/ArchGenEq.lean) and the theorems over the generated definitions
@@ -1870,12 +2034,20 @@ def pre_gate(chk: Check) -> None:
         py2lean_kernel.write_if_changed(ktext, common.LEAN_DIR / "Gen" / "KernelGen.lean")
     except py2lean_kernel.Unsupported:
         pass                                    # reported by its own gate below
+    try:
+        mtext, _ = py2lean_multiinput.translate(REPO)
+        py2lean_multiinput.write_if_changed(mtext, common.LEAN_DIR / "Gen" / "MultiInputGen.lean")
+    except py2lean_multiinput.Unsupported:
+        pass                                    # reported by its own gate below
     common.translation_gate(chk, py2lean_arch, "Gen/ArchGen.lean",
                             ["Gen.ArchGen", "Proofs.ArchGenEq", "Props.C03"],
                             "@mutation methods of EvolvableMLP / CNN / LSTM / SimBa / ResNet / EvolvableNetwork")
     common.translation_gate(chk, py2lean_kernel, "Gen/KernelGen.lean",
                             ["Gen.KernelGen", "Proofs.KernelGenEq", "Props.C03"],
                             "calc_max_kernel_sizes and MutableKernelSizes._later_layers_fit")
+    common.translation_gate(chk, py2lean_multiinput, "Gen/MultiInputGen.lean",
+                            ["Gen.MultiInputGen", "Proofs.MultiInputGenEq", "Props.C03"],
+                            "latent-node mutations and final_dense width arithmetic of EvolvableMultiInput")
 
 
 def run(chk: Check) -> None:
@@ -1897,6 +2069,10 @@ def run(chk: Check) -> None:
                  "than their input, strides 1..7, non-square inputs) through the real calc_max_kernel_sizes and _later_layers_fit; "
                  "kernel-limit = real EvolvableCNNs on 4x4..16x16 images (strides 1..3, kernels up to the full map), chains of "
                  "change_kernel (explicit kernel 1..9 on layer 0..5, or drawn) / add_layer / remove_layer, each step on a clone")
+    chk.rule += ("  Multi-input width: suite multi-width = random Dict / Tuple spaces (1-5 sub-spaces: 1-D / 2-D / image / 4-D Box, "
+                 "Discrete, MultiDiscrete; at least one vector sub-space, and a latent module when a vector Box has 2 / 4 dimensions), recurrent x vector_space_mlp, small / default latent bounds, "
+                 "1-4 latent mutations (explicit 0..max or drawn) on the real EvolvableMultiInput: bounds, final_dense.in_features = "
+                 "exact width = fresh construction from init_dict = the width forward concatenates (pre-hook), module classes, extractor outputs")
     chk.rule += ("  Explicit arguments: suite explicit-args = every advertised method that takes arguments x every layer index of its "
                  "component and one beyond x explicit / drawn size (change_kernel: kernel below / at / above the current one), one step "
                  "on a clone, on 10 subjects with 2-3 layers of distinct widths (MLP, CNN 2d/3d blocks, nested blocks of dict / tuple "
@@ -1961,6 +2137,9 @@ def run(chk: Check) -> None:
     chk.suite("calc-max-kernel", n, d)
     n, d = kernel_limit_suite(chk, policy, known, 14 if quick else 120, 5 if quick else 8)
     chk.suite("kernel-limit", n, d)
+    # multi-input: width of final_dense at construction / after latent mutations vs the exact width and forward
+    n, d = multi_width_suite(chk, 40 if quick else 300)
+    chk.suite("multi-width", n, d)
     # walks
     length = 12 if quick else 50
     for spec in subs:
@@ -2125,6 +2304,12 @@ def _replay(chk: Check, path: str) -> int:
     c = c.get("replay", c)
     policy = c.get("policy", {"forward_head": True, "clamp_kernel": True})
     spec, steps = c["spec"], c["steps"]
+    if c.get("call") == "multi_width":
+        bad = multi_width_case(c["case"])
+        print(json.dumps({"case": c["case"], "oracle_problems": bad}))
+        if bad:
+            print(f"VIOLATION property=C03 replay={path}")
+        return 1 if bad else 0
     if c.get("call") == "kernel_calc":
         problems, diff = kernel_calc_case(chk, c["case"])
         print(json.dumps({"case": c["case"], "oracle_problems": problems, "diff": diff}))
